@@ -30,7 +30,7 @@ func init() {
 type N struct {
 	Kind  string // leaf leaf-list container list choice case
 	Name  string
-	Type  string // leaf type name ("string", "int8", "T" = typedef t)
+	Type  string   // leaf type name ("string", "int8", "T" = typedef t)
 	Props []string // extra statements rendered verbatim, e.g. `default "x";`
 	Kids  []*N
 }
@@ -89,7 +89,9 @@ func find(nodes []*N, path string) *N {
 	return n
 }
 
-func lf(name, typ string, props ...string) *N { return &N{Kind: "leaf", Name: name, Type: typ, Props: props} }
+func lf(name, typ string, props ...string) *N {
+	return &N{Kind: "leaf", Name: name, Type: typ, Props: props}
+}
 
 // body menu
 func bodyMenu() map[string][]*N {
@@ -102,6 +104,11 @@ func bodyMenu() map[string][]*N {
 		"leaf-list": {{Kind: "leaf-list", Name: "ll", Type: "string"}},
 		"typedef":   {lf("l", "T")},
 		"must":      {{Kind: "container", Name: "c", Props: []string{`must "l = 'x'" { error-message "em"; }`}, Kids: []*N{lf("l", "string")}}},
+		// mandatory nodes (top-level augments only: fine in the own module, refused in another one)
+		"mand-leaf":      {lf("l", "string", "mandatory true;")},
+		"mand-choice":    {{Kind: "choice", Name: "ch", Props: []string{"mandatory true;"}, Kids: []*N{lf("x", "string"), lf("y", "string")}}},
+		"mand-list":      {{Kind: "list", Name: "li", Props: []string{"min-elements 1;"}, Kids: []*N{lf("k", "string"), lf("v", "string")}}},
+		"mand-container": {{Kind: "container", Name: "c", Kids: []*N{lf("l", "string", "mandatory true;"), lf("m", "int8")}}},
 		// if-feature written inside the grouping: it names a feature of the defining module
 		"iffeature": {{Kind: "container", Name: "c", Kids: []*N{lf("l", "string", "if-feature GFEAT;"), lf("m", "int8")}}, lf("top", "string", "if-feature GFEAT;")},
 		// ... and one that names the defining module's feature "off" (enabled for an imported grouping)
@@ -120,11 +127,11 @@ type Mod struct {
 var mods = []string{"", "augment-uses-when", "augment-uses-if-feature-off", "augment-uses-status", "augment-when", "refine-default", "refine-mandatory", "refine-config", "refine-presence", "refine-description", "refine-min", "refine-must", "refine-nested", "augment", "when", "if-feature", "if-feature-off", "status"}
 
 type Structure struct {
-	Body   []string `json:"body"`   // names from the menu
-	Nested bool     `json:"nested"` // the grouping uses a second grouping
+	Body   []string `json:"body"`           // names from the menu
+	Nested bool     `json:"nested"`         // the grouping uses a second grouping
 	Deep   bool     `json:"deep,omitempty"` // ... from inside a container of its body (not at its top level)
-	Def    string   `json:"def"`    // same | import | submodule
-	Site   string   `json:"site"`   // top container list case grouping augment
+	Def    string   `json:"def"`            // same | import | submodule
+	Site   string   `json:"site"`           // top container list case grouping augment
 	Mods   []string `json:"mods"`
 	Clash  bool     `json:"clash"`
 }
@@ -135,7 +142,7 @@ func (s Structure) String() string {
 
 type rendered struct {
 	uses, inline map[string]string
-	expect       string // ok | error
+	expect       string   // ok | error
 	whenPaths    []string // nodes introduced by an augment with a when: run-as-parent required
 	stripParent  bool     // a when was copied from a uses/augment: the flag is not part of the comparison
 }
@@ -589,7 +596,9 @@ type scopePair struct {
 
 func scopePairs() []scopePair {
 	a := func(body string) string { return "module a { namespace \"urn:a\"; prefix a; " + body + " }" }
-	ab := func(body string) string { return "module a { namespace \"urn:a\"; prefix a; import b { prefix b; } " + body + " }" }
+	ab := func(body string) string {
+		return "module a { namespace \"urn:a\"; prefix a; import b { prefix b; } " + body + " }"
+	}
 	b := func(body string) string { return "module b { namespace \"urn:b\"; prefix b; " + body + " }" }
 	one := func(name, u, i string) scopePair {
 		return scopePair{name, map[string]string{"a": a(u)}, map[string]string{"a": a(i)}}
@@ -1003,15 +1012,24 @@ type AugStruct struct {
 	Deco  string `json:"deco"`  // "", when, if-feature, status
 	Into  string `json:"into"`  // container list choice
 	Clash bool   `json:"clash"`
+	// Sub: the augment is written in a submodule of a: "module" (target in the module), "itself"
+	// (target in the same submodule), "sibling" (target in another submodule)
+	Sub string `json:"sub,omitempty"`
 }
 
 func (s AugStruct) String() string {
-	return fmt.Sprintf("augment body=%s cross=%v deco=%s into=%s clash=%v", s.Body, s.Cross, s.Deco, s.Into, s.Clash)
+	sub := ""
+	if s.Sub != "" {
+		sub = " written-in-submodule-target-in=" + s.Sub
+	}
+	return fmt.Sprintf("augment body=%s cross=%v deco=%s into=%s clash=%v%s", s.Body, s.Cross, s.Deco, s.Into, s.Clash, sub)
 }
+
+func (s AugStruct) mandatory() bool { return strings.HasPrefix(s.Body, "mand-") }
 
 func buildAug(s AugStruct) (augV, inlV map[string]string, introduced []string, ok bool) {
 	body := bodyMenu()[s.Body]
-	if s.Body == "typedef" || (s.Body == "choice" && s.Into == "choice") {
+	if s.Body == "typedef" || ((s.Body == "choice" || s.Body == "mand-choice") && s.Into == "choice") {
 		return nil, nil, nil, false
 	}
 	var bcopy []*N
@@ -1022,6 +1040,9 @@ func buildAug(s AugStruct) (augV, inlV map[string]string, introduced []string, o
 	switch s.Deco {
 	case "when":
 		deco = ` when "a:base = 'on'";`
+		if s.Sub != "" {
+			deco = ` when "base = 'on'";` // (the belongs-to prefix is not usable in expressions)
+		}
 	case "if-feature":
 		deco = " if-feature feat;"
 	case "if-feature-off":
@@ -1062,6 +1083,31 @@ func buildAug(s AugStruct) (augV, inlV map[string]string, introduced []string, o
 	_, withBody := target(render(bcopy))
 	hdrA := "module a { namespace \"urn:a\"; prefix a; feature feat; feature off;"
 	aug := fmt.Sprintf(" augment %s {%s%s }", path, deco, render(body))
+	hdrInc := func(subs ...string) string {
+		h := "module a { namespace \"urn:a\"; prefix a;"
+		for _, n := range subs {
+			h += " include " + n + ";"
+		}
+		return h + " feature feat; feature off;"
+	}
+	if s.Sub != "" {
+		// (inside a submodule the target is named without prefix and the when speaks of 'base' plainly)
+		aug = strings.ReplaceAll(strings.ReplaceAll(aug, "a:base", "base"), "a:", "")
+		subHdr := "submodule s { belongs-to a { prefix a; }"
+		sub2 := "submodule s2 { belongs-to a { prefix a; }"
+		switch s.Sub {
+		case "module":
+			augV = map[string]string{"a": hdrInc("s") + withNothing + " }", "s": subHdr + aug + " }"}
+			inlV = map[string]string{"a": hdrInc("s") + withBody + " }", "s": subHdr + " }"}
+		case "itself":
+			augV = map[string]string{"a": hdrInc("s") + " }", "s": subHdr + withNothing + aug + " }"}
+			inlV = map[string]string{"a": hdrInc("s") + " }", "s": subHdr + withBody + " }"}
+		case "sibling":
+			augV = map[string]string{"a": hdrInc("s", "s2") + " }", "s": subHdr + " include s2;" + aug + " }", "s2": sub2 + withNothing + " }"}
+			inlV = map[string]string{"a": hdrInc("s", "s2") + " }", "s": subHdr + " include s2; }", "s2": sub2 + withBody + " }"}
+		}
+		return augV, inlV, introduced, true
+	}
 	if s.Cross {
 		augV = map[string]string{"a": hdrA + withNothing + " }", "b": "module b { namespace \"urn:b\"; prefix b; import a { prefix a; } feature feat;" + aug + " }"}
 		inlV = map[string]string{"a": hdrA + withBody + " }", "b": "module b { namespace \"urn:b\"; prefix b; import a { prefix a; } feature feat; }"}
@@ -1099,6 +1145,11 @@ func checkAug(s AugStruct) (vs []engine.Violation, outcome string) {
 	case ra.Verdict() == "panic" || ra.Verdict() == "nonterminating":
 		mk("augment-variant-"+ra.Verdict()+":"+cls, fmt.Sprint(ra.Panic))
 		return vs, "panic"
+	case s.Cross && s.mandatory():
+		if ra.OK() {
+			mk("mandatory-node-added-to-another-module:"+s.Body+":into="+s.Into, "RFC 6020 7.15: an augment must not add mandatory nodes to another module")
+		}
+		return vs, "expected-error"
 	case s.Clash:
 		if ra.OK() {
 			mk("augment-sibling-clash-accepted:"+s.Body+":into="+s.Into, "the augment introduces a node whose name already exists in the target")
@@ -1157,6 +1208,15 @@ func checkAug(s AugStruct) (vs []engine.Violation, outcome string) {
 		da, di = stripMachines(da), stripMachines(di)
 	}
 	da, di = stripTypeSpace(da), stripTypeSpace(di)
+	if s.Sub != "" {
+		// nodes written in a submodule carry the submodule's name as their module (namespace urn:a
+		// all the same); the in-place variant has them where the target is written
+		for _, sm := range []string{`s`, `s2`} {
+			rep := strings.NewReplacer(` module="`+sm+`"`, ` module="a"`, ` submodule="`+sm+`"`, ` submodule=""`)
+			da, di = rep.Replace(da), rep.Replace(di)
+		}
+		cls += ":written-in-submodule"
+	}
 	if da != di {
 		mk("augment-differs-from-inline:"+cls, gen.FirstDiff(da, di))
 	}
@@ -1181,6 +1241,25 @@ func augStructs() []AugStruct {
 			}
 			for _, into := range []string{"container", "list", "choice"} {
 				out = append(out, AugStruct{Body: b, Cross: cross, Into: into, Clash: true})
+			}
+		}
+	}
+	// mandatory nodes: into the own module (also from a submodule) they are ordinary nodes, into
+	// another module they are refused; and every body from an augment written in a submodule
+	for _, b := range []string{"mand-leaf", "mand-choice", "mand-list", "mand-container"} {
+		for _, into := range []string{"container", "list", "choice"} {
+			for _, d := range []string{"", "when", "status"} {
+				out = append(out, AugStruct{Body: b, Deco: d, Into: into})
+			}
+			out = append(out, AugStruct{Body: b, Cross: true, Into: into})
+		}
+	}
+	for _, b := range append(append([]string{}, bodyNames[:8]...), "mand-leaf", "mand-choice", "mand-list", "mand-container") {
+		for _, sub := range []string{"module", "itself", "sibling"} {
+			for _, into := range []string{"container", "list", "choice"} {
+				for _, d := range []string{"", "when", "status"} {
+					out = append(out, AugStruct{Body: b, Deco: d, Into: into, Sub: sub})
+				}
 			}
 		}
 	}
